@@ -892,3 +892,83 @@ func ruleTRIMSOURCE(p *Program, rep *Report) {
 		rep.Unknown("TRIM-SOURCE", "anchor", "", "allocArea.rollback does not rewrite freelist.regions (anchor lost; INV-FL decides whether a trim exists)")
 	}
 }
+
+// ---- FLAG-MONOTONE (C01, C03, C15) ----
+
+// ruleFLAGMONOTONE: the per-page state flags dirty / flushed / freed only ever go from false to true inside a
+// transaction; other code relies on that: the WAL checkpoint skips exactly the pages with dirty set (a page
+// this transaction wrote must not be overwritten by the copy of its old overwrite page), canWrite refuses
+// flushed pages (their buffer is owned by the background writer) and freed pages.
+func ruleFLAGMONOTONE(p *Program, rep *Report) {
+	rep.Rule("FLAG-MONOTONE", 2, "every store to Page.flags.dirty / flushed / freed outside the construction of a fresh Page stores the constant true (or the old value or-ed with something): the flags are monotone within a transaction, which the WAL checkpoint (skips dirty pages), canWrite (refuses flushed/freed pages) and the flush (writes dirty pages once) rely on")
+	pf := p.Struct("txfile", "pageFlags")
+	mono := map[*types.Var]bool{}
+	for i := 0; i < pf.NumFields(); i++ {
+		switch pf.Field(i).Name() {
+		case "dirty", "flushed", "freed":
+			mono[pf.Field(i)] = true
+		}
+	}
+	if len(mono) != 3 {
+		panic(vocabMiss{"txfile.pageFlags.{dirty,flushed,freed}"})
+	}
+	var rootOf func(v ssa.Value) ssa.Value
+	rootOf = func(v ssa.Value) ssa.Value {
+		if fa, ok := v.(*ssa.FieldAddr); ok {
+			return rootOf(fa.X)
+		}
+		return v
+	}
+	n := 0
+	for _, fn := range p.SrcFuncs() {
+		if fnPkgPath(fn) != modPath {
+			continue
+		}
+		for _, b := range fn.Blocks {
+			for _, ins := range b.Instrs {
+				st, ok := ins.(*ssa.Store)
+				if !ok {
+					continue
+				}
+				fa, ok := st.Addr.(*ssa.FieldAddr)
+				if !ok || !mono[fieldOfAddr(fa)] {
+					continue
+				}
+				n++
+				rep.Analysed(funcName(fn))
+				f := fieldOfAddr(fa)
+				key := funcName(fn) + "|flags." + f.Name()
+				if _, fresh := rootOf(fa).(*ssa.Alloc); fresh {
+					rep.OK("FLAG-MONOTONE", key+"|init", p.InstrPos(ins), "initialisation of a fresh Page")
+					continue
+				}
+				if bv, isC := constBoolOf(st.Val); isC && bv {
+					rep.OK("FLAG-MONOTONE", key, p.InstrPos(ins), "set")
+					continue
+				}
+				// old || x
+				okOr := false
+				if ph, isPhi := st.Val.(*ssa.Phi); isPhi {
+					okOr = true
+					for _, e := range ph.Edges {
+						if bv, isC := constBoolOf(e); isC && bv {
+							continue
+						}
+						if u, isU := e.(*ssa.UnOp); isU && sameAddr(u.X, st.Addr) {
+							continue
+						}
+						okOr = false
+					}
+				}
+				if okOr {
+					rep.OK("FLAG-MONOTONE", key, p.InstrPos(ins), "old value or-ed")
+					continue
+				}
+				rep.Bad("FLAG-MONOTONE", key, p.InstrPos(ins), "Page.flags."+f.Name()+" can be cleared inside a transaction: the flag is relied on as monotone — with dirty cleared after a flush the WAL checkpoint no longer skips the page and copies its OLD overwrite page over the contents just written (the commit then exposes an older state of that page); with flushed/freed cleared a buffer owned by the background writer can be modified, or a freed page written")
+			}
+		}
+	}
+	if n == 0 {
+		rep.Unknown("FLAG-MONOTONE", "anchor", "", "no store to Page.flags.dirty/flushed/freed found (anchor lost)")
+	}
+}
